@@ -15,6 +15,7 @@ import (
 	"fmt"
 	"os"
 	"runtime"
+	"time"
 )
 
 // AssumptionFailed is the panic value raised natively when an assumption
@@ -146,3 +147,13 @@ var thorough = os.Getenv("VERIF_TIER") == "thorough"
 // Bool2 returns a boolean the executor forks on (both values explored as
 // separate shapes) instead of keeping it symbolic.
 func Bool2() bool { return Choice(2) == 1 }
+
+// Quiesce returns when no other goroutine can make progress any more (under
+// the executor: every other goroutine has finished or is blocked).  Natively
+// it is a best-effort pause.
+func Quiesce() {
+	for i := 0; i < 50; i++ {
+		runtime.Gosched()
+	}
+	time.Sleep(2 * time.Millisecond)
+}
